@@ -11,13 +11,22 @@ if git apply --check $SRC/patch.diff 2>/dev/null; then res="$res patch_applies=y
 # original build + demo
 cmake -G Ninja -B _build -S . -DCMAKE_BUILD_TYPE=RelWithDebInfo >/dev/null 2>&1 && cmake --build _build -j8 >/dev/null 2>&1 || res="$res orig_build=FAIL"
 EXTRA=""; [ -f $SRC/demo.flags ] && EXTRA=$(cat $SRC/demo.flags)
-DEMOFLAGS="-I$WT/include -I$WT/src $SRC/demo.c $WT/_build/liblcdb.a -lpthread -lm $EXTRA"
+LIB=$WT/_build/liblcdb.a
+if [ -f $SRC/demo.buildtype ]; then
+  # the demo needs a library built with another CMAKE_BUILD_TYPE (e.g. Debug for the env fault switches); the test suite below
+  # still runs on the prescribed build
+  BT=$(cat $SRC/demo.buildtype)
+  cmake -G Ninja -B _build_demo -S . -DCMAKE_BUILD_TYPE=$BT >/dev/null 2>&1 && cmake --build _build_demo -j8 --target lcdb_static >/dev/null 2>&1 || res="$res demo_lib_build=FAIL"
+  LIB=$WT/_build_demo/liblcdb.a
+fi
+DEMOFLAGS="-I$WT/include -I$WT/src $SRC/demo.c $LIB -lpthread -lm $EXTRA"
 cc -O1 -g $DEMOFLAGS -o $TT/demo_orig 2>$TT/cc.log || res="$res demo_compile=FAIL"
 mkdir -p $TT/scratch-orig $TT/scratch-mut
 (cd $TT && TEST_TMPDIR=$TT timeout 600 ./demo_orig $TT/scratch-orig >$TT/demo_orig.out 2>&1); res="$res demo_on_original_rc=$?"
 # changed build + tests + demo
 git apply $SRC/patch.diff
 cmake --build _build -j8 >/dev/null 2>&1 || res="$res mut_build=FAIL"
+[ -f $SRC/demo.buildtype ] && { cmake --build _build_demo -j8 --target lcdb_static >/dev/null 2>&1 || res="$res mut_demo_lib_build=FAIL"; }
 cc -O1 -g $DEMOFLAGS -o $TT/demo_mut 2>>$TT/cc.log
 (cd $TT && TEST_TMPDIR=$TT timeout 600 ./demo_mut $TT/scratch-mut >$TT/demo_mut.out 2>&1); res="$res demo_on_changed_rc=$?"
 TEST_TMPDIR=$TT ctest --test-dir _build -j4 --timeout 900 >$TT/ctest.out 2>&1
